@@ -14,56 +14,61 @@ Section Loops.
   Lemma ocs_app : forall a b o, ocs (a ++ b) o = ocs b (ocs a o).
   Proof. intros. apply fold_left_app. Qed.
 
-  (* the loop invariant of BaseChannel::poll_next *)
+  Definition entry_of (q : treq) : sentry := {| e_id := q_id q; e_h := q_h q; e_dl := q_dl q |}.
+
+  (* loop invariant while no accepted request is pending *)
   Definition BInv (o : ostate) (s : st) : Prop :=
-    InvU o s /\ (pend_id o = None \/ all_owned o s) /\ c_err (o_v o) = false.
+    InvU o s /\ handled s /\ c_err (o_v o) = false.
+  (* a request has been accepted and is on its way to the application *)
+  Definition QInv (o : ostate) (s : st) (q : treq) : Prop :=
+    InvU o s /\ PendQ o s q /\ c_err (o_v o) = false.
+
+  Definition post (r : pres treq) (o : ostate) (s : st) : Prop :=
+    match r with
+    | PReady q => QInv o s q /\ In (entry_of q) (s_inflight s)
+    | _ => BInv o s
+    end.
+
+  Lemma handled_remove : forall (s s' : st) id,
+    handled s -> s_inflight s' = drop_entry id (s_inflight s) -> s_handlers s' = s_handlers s -> handled s'.
+  Proof.
+    intros s s' id Hh Hi Hha. apply (handled_sub s s' Hh); [|rewrite Hha; reflexivity].
+    intros e He. rewrite Hi in He. apply in_drop_entry in He. tauto.
+  Qed.
 
   Lemma base_inv : forall f (s : st) r s' o,
     BInv o s -> base_poll_next tp f s = (r, s') ->
-    exists new, ext s s' new /\
-      let o' := ocs new o in
-      match r with
-      | PReady q => InvU o' s' /\ PendQ o' s' q /\ c_err (o_v o') = false
-      | _ => BInv o' s'
-      end.
+    exists new, ext s s' new /\ post r (ocs new o) s'.
   Proof.
     induction f as [|f IH]; intros s r s' o HB H; cbn [base_poll_next] in H.
     { injection H as <- <-. exists []. split; [apply ext_refl|exact HB]. }
-    destruct HB as (HI & Hown & Hce).
+    destruct HB as (HI & Hh & Hce).
     (* cancel queue *)
     set (cs := match s_cancels s with
                | id :: r0 => (RSReady, snd (remove_request id (set_cancels s r0)))
                | [] => (RSClosed, s) end) in H.
     assert (Hc : BInv o (snd cs) /\ s_log (snd cs) = s_log s).
-    { subst cs. destruct (s_cancels s) as [|id r0] eqn:EC; cbn [snd]; [split; [exact (conj HI (conj Hown Hce))|reflexivity]|].
+    { subst cs. destruct (s_cancels s) as [|id r0] eqn:EC; cbn [snd];
+        [split; [exact (conj HI (conj Hh Hce))|reflexivity]|].
       split; [|rewrite log_remove_request; reflexivity].
-      assert (HI1 : InvU o (snd (remove_request id (set_cancels s r0)))) by (apply InvU_server_cancel; auto).
-      split; [exact HI1|split; [|exact Hce]].
-      destruct Hown as [Hp|Ha]; [left; exact Hp|right].
-      intros _ e He.
+      split; [apply InvU_server_cancel; auto|split; [|exact Hce]].
       destruct (remove_request_shape id (set_cancels s r0)) as [(_ & Heq & _)|(_ & _ & B1 & B2 & B3 & _)];
         cbv zeta in *.
-      - rewrite Heq in He |- *. destruct (Ha Hce e He) as (k & Hk). exists k.
-        eapply owns_frame; [| | |exact Hk]; reflexivity.
-      - rewrite B1 in He. apply in_drop_entry in He. destruct He as [He Hne]. sproj.
-        destruct (Ha Hce e He) as (k & hr & oi & X1 & X2 & X3 & X4 & X5 & X6 & X7).
-        exists k, hr, oi. rewrite B3, B2. sproj. repeat split; auto.
-        apply in_drop_timer. split; [exact X6|exact Hne]. }
-    destruct cs as [cst s1]. cbn [snd] in Hc. destruct Hc as ((HI1 & Hown1 & _) & Hl1).
+      - rewrite Heq. exact Hh.
+      - eapply (handled_remove s); eauto. }
+    destruct cs as [cst s1]. cbn [snd] in Hc. destruct Hc as ((HI1 & Hh1 & _) & Hl1).
     (* expiry *)
     destruct (poll_expired s1) as [est s2] eqn:EE.
     assert (HI2 : InvU o s2) by (eapply InvU_poll_expired; eauto).
     pose proof (log_poll_expired s1) as Hl2. rewrite EE in Hl2. cbn [snd] in Hl2.
-    assert (Hown2 : pend_id o = None \/ all_owned o s2).
-    { destruct Hown1 as [Hp|Ha]; [left; exact Hp|right]. intros _ e He.
-      destruct (poll_expired_shape _ _ _ EE) as (A1 & A2 & A3 & A4 & A5 & A6 & _ & _ & _ & _ & _ & HH).
-      destruct HH as [(_ & B1 & B2 & _)|(_ & id & w & _ & _ & C3 & C4 & _)].
-      - rewrite B1 in He. destruct (Ha Hce e He) as (k & Hk). exists k. eapply owns_frame; eauto.
-      - rewrite C4 in He. apply in_drop_entry in He. destruct He as [He Hne].
-        destruct (Ha Hce e He) as (k & hr & oi & X1 & X2 & X3 & X4 & X5 & X6 & X7).
-        exists k, hr, oi. rewrite A1, C3. repeat split; auto. apply in_drop_timer. split; [exact X6|exact Hne]. }
+    assert (Hh2 : handled s2).
+    { destruct (poll_expired_shape _ _ _ EE) as (A1 & A2 & A3 & A4 & A5 & A6 & _ & _ & _ & _ & _ & HH).
+      destruct HH as [(_ & B1 & _)|(_ & id & w & _ & _ & _ & C4 & _)].
+      - apply (handled_sub s1 s2 Hh1); [rewrite B1; auto|rewrite A1; reflexivity].
+      - eapply (handled_remove s1); eauto. }
+    assert (Hown2 : pend_id o = None \/ all_owned o s2) by (right; apply all_owned_of_handled; auto).
     assert (H02 : ext s s2 []) by (apply ext_same; congruence).
-    assert (HB2 : BInv o s2) by (exact (conj HI2 (conj Hown2 Hce))).
+    assert (HB2 : BInv o s2) by (exact (conj HI2 (conj Hh2 Hce))).
     (* the final status *)
     assert (Hfin : forall rst sx new0 r s',
                ext s sx new0 -> BInv (ocs new0 o) sx ->
@@ -72,11 +77,7 @@ Section Loops.
                | RSClosed => (PEnd, sx)
                | RSPending => (PPending, sx)
                end = (r, s') ->
-               exists new, ext s s' new /\
-                 match r with
-                 | PReady q => InvU (ocs new o) s' /\ PendQ (ocs new o) s' q /\ c_err (o_v (ocs new o)) = false
-                 | _ => BInv (ocs new o) s'
-                 end).
+               exists new, ext s s' new /\ post r (ocs new o) s').
     { intros rst sx new0 r0 s0 Hx HBx HH. destruct (combine (combine cst est) rst).
       - destruct (IH _ _ _ _ HBx HH) as (n1 & E1 & Post). exists (new0 ++ n1).
         split; [eapply ext_trans; eauto|]. rewrite ocs_app. exact Post.
@@ -88,34 +89,371 @@ Section Loops.
       destruct (do_next_core tp _ _ _ EN) as (C3 & F3 & _ & _ & _ & L3).
       assert (H23 : ext s s3 [CNext rr]).
       { unfold ext in *. rewrite L3, H02. reflexivity. }
+      assert (Hh3 : handled s3).
+      { destruct C3 as (D1 & D2 & D3 & _). apply (handled_sub s2 s3 Hh2); [rewrite D3; auto|rewrite D1; reflexivity]. }
       destruct rr as [m| | |].
       + destruct m as [id dl tr body|id tr].
         * destruct (start_request id dl s3) as [[h s4]|] eqn:ES.
           -- injection H as <- <-.
-             destruct (step_next_accept tp lim o s2 id dl tr body s3 h s4 HI2 Hown2 Hce EN ES) as (A & B & C).
-             exists [CNext (RItem (MReq id dl tr body))]. split; [|cbn [fold_left]; auto].
+             destruct (step_next_accept tp lim o s2 id dl tr body s3 h s4 HI2 Hown2 Hce EN ES) as (A & B & C & D).
+             exists [CNext (RItem (MReq id dl tr body))]. split; [|cbn [fold_left post]; exact (conj (conj A (conj B C)) D)].
              unfold ext in *. rewrite (log_start_request _ _ _ _ _ ES). exact H23.
           -- destruct (step_next_dup tp lim o s2 id dl tr body s3 HI2 Hown2 Hce EN) as (A & B & C).
-             assert (HB3 : BInv (ocs [CNext (RItem (MReq id dl tr body))] o) s3) by (cbn [fold_left]; exact (conj A (conj (or_intror B) C))).
+             assert (HB3 : BInv (ocs [CNext (RItem (MReq id dl tr body))] o) s3)
+               by (cbn [fold_left]; exact (conj A (conj Hh3 C))).
              destruct (IH _ _ _ _ HB3 H) as (n1 & E1 & Post).
              exists ([CNext (RItem (MReq id dl tr body))] ++ n1). split; [eapply ext_trans; eauto|].
              rewrite ocs_app. exact Post.
         * destruct (step_next_cancel tp lim o s2 id tr s3 HI2 Hown2 Hce EN) as (A & B).
           apply (Hfin RSReady (cancel_request id s3) [CNext (RItem (MCancel id tr))]); [| |exact H].
           -- unfold ext in *. rewrite log_cancel_request. exact H23.
-          -- cbn [fold_left]. split; [exact A|split; [left; exact B|]].
-             destruct (ocall_next_proj lim o (RItem (MCancel id tr))) as (_ & _ & P3 & _). cbv zeta in P3. congruence.
+          -- cbn [fold_left]. split; [exact A|split].
+             ++ destruct (cancel_request_shape id s3) as [(Heq & _)|(e & _ & B1 & _ & _ & B4 & _)]; cbv zeta in *.
+                ** rewrite Heq. exact Hh3.
+                ** eapply (handled_remove s3); eauto.
+             ++ destruct (ocall_next_proj lim o (RItem (MCancel id tr))) as (_ & _ & P3 & _). cbv zeta in P3. congruence.
       + injection H as <- <-.
         destruct (step_next_idle tp lim o s2 RErr s3 HI2 Hown2 Hce EN I) as (A & B).
-        exists [CNext RErr]. split; [exact H23|]. cbn [fold_left]. split; [exact A|split; [left; exact B|]].
+        exists [CNext RErr]. split; [exact H23|]. cbn [fold_left post]. split; [exact A|split; [exact Hh3|]].
         destruct (ocall_next_proj lim o RErr) as (_ & _ & P3 & _). cbv zeta in P3. congruence.
       + destruct (step_next_idle tp lim o s2 REof s3 HI2 Hown2 Hce EN I) as (A & B).
         apply (Hfin RSClosed (set_fused s3 true) [CNext REof]); [exact H23| |exact H].
-        cbn [fold_left]. split; [exact A|split; [left; exact B|]].
+        cbn [fold_left]. split; [exact A|split; [exact Hh3|]].
         destruct (ocall_next_proj lim o REof) as (_ & _ & P3 & _). cbv zeta in P3. congruence.
       + destruct (step_next_idle tp lim o s2 RPending s3 HI2 Hown2 Hce EN I) as (A & B).
         apply (Hfin RSPending s3 [CNext RPending]); [exact H23| |exact H].
-        cbn [fold_left]. split; [exact A|split; [left; exact B|]].
+        cbn [fold_left]. split; [exact A|split; [exact Hh3|]].
         destruct (ocall_next_proj lim o RPending) as (_ & _ & P3 & _). cbv zeta in P3. congruence.
+  Qed.
+
+  Lemma BInv_ready : forall o (s : st) r s',
+    BInv o s -> do_ready tp s = (r, s') -> BInv (o_call lim o (CReady r)) s'.
+  Proof.
+    intros o s r s' (HI & Hh & Hce) H.
+    destruct (do_ready_core tp _ _ _ H) as ((C1 & C2 & C3 & _) & _).
+    destruct (ocall_ready_tab lim o r) as ((_ & _ & _ & _ & Tc) & _).
+    split; [eapply step_ready; eauto|split; [|congruence]].
+    apply (handled_sub s s' Hh); [rewrite C3; auto|rewrite C1; reflexivity].
+  Qed.
+
+  (* MaxRequests::poll_next *)
+  Lemma maxreq_inv : forall f limit (s : st) r s' o,
+    BInv o s -> maxreq_poll_next tp f limit s = (r, s') ->
+    exists new, ext s s' new /\ post r (ocs new o) s'.
+  Proof.
+    induction f as [|f IH]; intros limit s r s' o HB H; cbn [maxreq_poll_next] in H.
+    { injection H as <- <-. exists []. split; [apply ext_refl|exact HB]. }
+    destruct (limit <=? length (s_inflight s)).
+    - destruct (do_ready tp s) as [x s1] eqn:ER.
+      pose proof (BInv_ready _ _ _ _ HB ER) as HB1.
+      destruct (do_ready_core tp _ _ _ ER) as (_ & _ & _ & _ & _ & L1).
+      assert (E01 : ext s s1 [CReady x]) by (unfold ext; rewrite L1; reflexivity).
+      destruct x.
+      + destruct (base_poll_next tp (S f) s1) as [y s2] eqn:EB.
+        destruct (base_inv _ _ _ _ _ HB1 EB) as (n2 & E2 & Post2).
+        assert (E02 : ext s s2 ([CReady TOk] ++ n2)) by (eapply ext_trans; eauto).
+        destruct y as [q| |a| |].
+        * destruct Post2 as ((HI2 & HP2 & Hce2) & Hin2).
+          destruct (base_start_send tp (mkresp (q_id q) BThrottle) s2) as [e s3] eqn:ESS.
+          destruct (step_throttle tp lim _ s2 q e s3 HI2 HP2 Hce2 Hin2 ESS) as (rr & L3 & He & HI3 & Hp3 & Hce3 & Hi3).
+          cbv zeta in *.
+          assert (E03 : ext s s3 (([CReady TOk] ++ n2) ++ [CSend (mkresp (q_id q) BThrottle) rr])).
+          { eapply ext_trans; [exact E02|]. unfold ext. rewrite L3. reflexivity. }
+          assert (Hh3 : handled s3).
+          { intros e0 He0. rewrite Hi3 in He0. apply in_drop_entry in He0. destruct He0 as [He0 Hne].
+            destruct HP2 as (_ & Q2 & _).
+            destruct (base_start_send_shape tp _ _ _ _ ESS) as [(_ & _ & ->)|(_ & _ & _ & _ & _ & _ & B3 & _)].
+            - destruct (classic_handled s2 e0) as [Hy|Hn]; [exact Hy|].
+              exfalso. pose proof (Q2 e0 He0 Hn) as ->. cbn in Hne. congruence.
+            - rewrite B3. destruct (classic_handled s2 e0) as [Hy|Hn]; [exact Hy|].
+              exfalso. pose proof (Q2 e0 He0 Hn) as ->. cbn in Hne. congruence. }
+          assert (HB3 : BInv (ocs (([CReady TOk] ++ n2) ++ [CSend (mkresp (q_id q) BThrottle) rr]) o) s3).
+          { rewrite ocs_app. cbn [fold_left]. rewrite ocs_app. cbn [fold_left]. exact (conj HI3 (conj Hh3 Hce3)). }
+          destruct e as [a|].
+          -- injection H as <- <-. eexists; split; [exact E03|exact HB3].
+          -- destruct (IH _ _ _ _ _ HB3 H) as (n4 & E4 & Post4).
+             eexists; split; [eapply ext_trans; [exact E03|exact E4]|]. rewrite ocs_app. exact Post4.
+        * injection H as <- <-. eexists; split; [exact E02|]. rewrite ocs_app. exact Post2.
+        * injection H as <- <-. eexists; split; [exact E02|]. rewrite ocs_app. exact Post2.
+        * injection H as <- <-. eexists; split; [exact E02|]. rewrite ocs_app. exact Post2.
+        * injection H as <- <-. eexists; split; [exact E02|]. rewrite ocs_app. exact Post2.
+      + injection H as <- <-. eexists; split; [exact E01|exact HB1].
+      + injection H as <- <-. eexists; split; [exact E01|exact HB1].
+    - exact (base_inv _ _ _ _ _ HB H).
+  Qed.
+
+  Lemma respq_start_send : forall m (s : st) e s', base_start_send tp m s = (e, s') -> s_respq s' = s_respq s.
+  Proof.
+    intros m s e s' H.
+    destruct (base_start_send_shape tp _ _ _ _ H) as [(_ & _ & ->)|(_ & _ & _ & _ & _ & _ & _ & _ & _ & _ & _ & _ & _ & Q & _)]; auto.
+  Qed.
+
+  Lemma respq_base : forall f (s : st) r s', base_poll_next tp f s = (r, s') -> s_respq s' = s_respq s.
+  Proof.
+    induction f as [|f IH]; intros s r s' H; cbn [base_poll_next] in H; [injection H as _ <-; reflexivity|].
+    set (cs := match s_cancels s with
+               | id :: r0 => (RSReady, snd (remove_request id (set_cancels s r0)))
+               | [] => (RSClosed, s) end) in H.
+    assert (Hc : s_respq (snd cs) = s_respq s).
+    { subst cs. destruct (s_cancels s); [reflexivity|]. cbn [snd].
+      destruct (remove_request_shape n (set_cancels s l)) as [(_ & -> & _)|(_ & _ & _ & _ & _ & _ & _ & _ & _ & _ & _ & Q & _)];
+        [reflexivity|exact Q]. }
+    destruct cs as [cst s1]. cbn [snd] in Hc.
+    destruct (poll_expired s1) as [est s2] eqn:EE.
+    destruct (poll_expired_shape _ _ _ EE) as (_ & _ & _ & _ & _ & _ & Q2 & _).
+    assert (Hfin : forall rst sx r s', s_respq sx = s_respq s ->
+               match combine (combine cst est) rst with
+               | RSReady => base_poll_next tp f sx
+               | RSClosed => (PEnd, sx)
+               | RSPending => (PPending, sx)
+               end = (r, s') -> s_respq s' = s_respq s).
+    { intros rst sx r0 s0 Hx HH. destruct (combine (combine cst est) rst).
+      - rewrite (IH _ _ _ HH). exact Hx.
+      - injection HH as _ <-. exact Hx.
+      - injection HH as _ <-. exact Hx. }
+    destruct (s_fused s2).
+    - apply (Hfin RSClosed s2 r s'); [congruence|exact H].
+    - destruct (do_next tp s2) as [rr s3] eqn:EN. destruct (do_next_core tp _ _ _ EN) as (_ & _ & Q3 & _).
+      destruct rr as [m| | |].
+      + destruct m as [id dl tr body|id tr].
+        * destruct (start_request id dl s3) as [[h s4]|] eqn:ES.
+          -- injection H as _ <-. destruct (start_request_shape _ _ _ _ _ ES) as (_ & _ & _ & _ & _ & _ & _ & _ & _ & _ & _ & Q4 & _).
+             congruence.
+          -- rewrite (IH _ _ _ H). congruence.
+        * apply (Hfin RSReady (cancel_request id s3) r s'); [|exact H].
+          destruct (cancel_request_shape id s3) as [(-> & _)|(e & _ & _ & _ & _ & _ & _ & _ & _ & _ & _ & Q & _)]; congruence.
+      + injection H as _ <-. congruence.
+      + apply (Hfin RSClosed (set_fused s3 true) r s'); [sproj; congruence|exact H].
+      + apply (Hfin RSPending s3 r s'); [congruence|exact H].
+  Qed.
+
+  (* the response queue only holds handler results *)
+  Definition no_thr (s : st) : Prop := forall m, In m (s_respq s) -> resp_body m <> BThrottle.
+
+  (* what pump_write leaves alone *)
+  Definition wframe (s s' : st) : Prop :=
+    (forall e, In e (s_inflight s') -> In e (s_inflight s))
+    /\ map h_h (s_handlers s') = map h_h (s_handlers s) /\ s_next_h s' = s_next_h s
+    /\ s_aborted s' = s_aborted s /\ s_cancels s' = s_cancels s /\ s_dropped s' = s_dropped s
+    /\ (forall m, In m (s_respq s') -> In m (s_respq s)).
+
+  Lemma wframe_refl : forall s, wframe s s.
+  Proof. intros s; unfold wframe; repeat split; auto. Qed.
+  Lemma wframe_trans : forall s1 s2 s3, wframe s1 s2 -> wframe s2 s3 -> wframe s1 s3.
+  Proof.
+    intros s1 s2 s3 (A1 & A2 & A3 & A4 & A5 & A6 & A7) (B1 & B2 & B3 & B4 & B5 & B6 & B7).
+    unfold wframe; repeat split; auto; congruence.
+  Qed.
+  Lemma wframe_core : forall s s', same_core s s' -> s_respq s' = s_respq s -> wframe s s'.
+  Proof.
+    intros s s' (C1 & C2 & C3 & C4 & C5 & C6 & C7 & C8) Q. unfold wframe.
+    rewrite C1, C2, C3, C5, C6, C8, Q. repeat split; auto.
+  Qed.
+
+  Lemma IF_ready : forall o (s : st) r s',
+    InvU o s -> c_err (o_v o) = false -> do_ready tp s = (r, s') ->
+    let o' := o_call lim o (CReady r) in
+    InvU o' s' /\ c_err (o_v o') = false /\ o_pend o' = o_pend o /\ wframe s s'
+    /\ s_log s' = CReady r :: s_log s /\ s_respq s' = s_respq s.
+  Proof.
+    intros o s r s' HI Hce H. cbv zeta.
+    destruct (do_ready_core tp _ _ _ H) as (C & F & Q & _ & _ & L).
+    destruct (ocall_ready_tab lim o r) as ((_ & _ & _ & Tp & Tc) & _).
+    split; [eapply step_ready; eauto|]. split; [congruence|]. split; [|split; [apply wframe_core; auto|auto]].
+    unfold o_call. fold (pre_err o). destruct (pre_err_proj o) as (_ & _ & _ & _ & A5 & _). oproj. exact A5.
+  Qed.
+  Lemma IF_flush : forall o (s : st) r s',
+    InvU o s -> c_err (o_v o) = false -> do_flush tp s = (r, s') ->
+    let o' := o_call lim o (CFlush r) in
+    InvU o' s' /\ c_err (o_v o') = false /\ o_pend o' = o_pend o /\ wframe s s'
+    /\ s_log s' = CFlush r :: s_log s /\ s_respq s' = s_respq s.
+  Proof.
+    intros o s r s' HI Hce H. cbv zeta.
+    destruct (do_flush_core tp _ _ _ H) as (C & F & Q & _ & _ & L).
+    destruct (ocall_flush_tab lim o r) as ((_ & _ & _ & Tp & Tc) & _).
+    split; [eapply step_flush; eauto|]. split; [congruence|]. split; [|split; [apply wframe_core; auto|auto]].
+    unfold o_call. fold (pre_err o). destruct (pre_err_proj o) as (_ & _ & _ & _ & A5 & _). oproj. exact A5.
+  Qed.
+
+  Definition wpost (o : ostate) (s : st) (o' : ostate) (s' : st) : Prop :=
+    InvU o' s' /\ c_err (o_v o') = false /\ o_pend o' = o_pend o /\ wframe s s'.
+
+  (* Requests::ensure_writeable *)
+  Lemma ensure_inv : forall o (s : st) w s',
+    InvU o s -> c_err (o_v o) = false -> ensure_writeable tp s = (w, s') ->
+    exists new, ext s s' new /\ wpost o s (ocs new o) s' /\ s_respq s' = s_respq s.
+  Proof.
+    intros o s w s' HI Hce H. unfold ensure_writeable in H.
+    destruct (do_ready tp s) as [r s1] eqn:E1.
+    destruct (IF_ready _ _ _ _ HI Hce E1) as (I1 & C1 & P1 & W1 & L1 & Q1). cbv zeta in *.
+    assert (X1 : ext s s1 [CReady r]) by (unfold ext; rewrite L1; reflexivity).
+    destruct r; try (injection H as <- <-; eexists;
+                     (split; [exact X1|]); (split; [exact (conj I1 (conj C1 (conj P1 W1)))|exact Q1])).
+    destruct (do_flush tp s1) as [f s2] eqn:E2.
+    destruct (IF_flush _ _ _ _ I1 C1 E2) as (I2 & C2 & P2 & W2 & L2 & Q2). cbv zeta in *.
+    assert (X2 : ext s s2 ([CReady TPending] ++ [CFlush f])).
+    { eapply ext_trans; [exact X1|]. unfold ext; rewrite L2; reflexivity. }
+    destruct f; try (injection H as <- <-; eexists; (split; [exact X2|]); rewrite ocs_app; cbn [fold_left];
+                     (split; [exact (conj I2 (conj C2 (conj (eq_trans P2 P1) (wframe_trans _ _ _ W1 W2))))|congruence])).
+    destruct (do_ready tp s2) as [r2 s3] eqn:E3.
+    destruct (IF_ready _ _ _ _ I2 C2 E3) as (I3 & C3 & P3 & W3 & L3 & Q3). cbv zeta in *.
+    assert (X3 : ext s s3 (([CReady TPending] ++ [CFlush TOk]) ++ [CReady r2])).
+    { eapply ext_trans; [exact X2|]. unfold ext; rewrite L3; reflexivity. }
+    destruct r2; injection H as <- <-; eexists; (split; [exact X3|]); rewrite !ocs_app; cbn [fold_left];
+      (split; [exact (conj I3 (conj C3 (conj (eq_trans P3 (eq_trans P2 P1))
+                                               (wframe_trans _ _ _ (wframe_trans _ _ _ W1 W2) W3))))|congruence]).
+  Qed.
+
+  (* Requests::pump_write *)
+  Lemma pump_write_inv : forall rc o (s : st) w s',
+    InvU o s -> c_err (o_v o) = false -> no_thr s -> pump_write tp rc s = (w, s') ->
+    exists new, ext s s' new /\ wpost o s (ocs new o) s' /\ no_thr s'.
+  Proof.
+    intros rc o s w s' HI Hce Hnt H. unfold pump_write, poll_next_response in H.
+    destruct (ensure_writeable tp s) as [x s1] eqn:EW.
+    destruct (ensure_inv _ _ _ _ HI Hce EW) as (n1 & X1 & (I1 & C1 & P1 & W1) & Q1).
+    assert (Hnt1 : no_thr s1) by (intros m Hm; apply Hnt; rewrite <- Q1; exact Hm).
+    assert (Hflush : forall w s',
+      (let '(f, s2) := do_flush tp s1 in
+       match f with
+       | TOk => if rc && Nat.eqb (length (s_inflight s2)) 0 then (@PEnd unit, s2) else (PPending, s2)
+       | TErr => (PErr AFlush, s2)
+       | TPending => (PPending, s2)
+       end) = (w, s') ->
+      exists new, ext s s' new /\ wpost o s (ocs new o) s' /\ no_thr s').
+    { intros w0 s0 HH. destruct (do_flush tp s1) as [f s2] eqn:EF.
+      destruct (IF_flush _ _ _ _ I1 C1 EF) as (I2 & C2 & P2 & W2 & L2 & Q2). cbv zeta in *.
+      assert (X2 : ext s s2 (n1 ++ [CFlush f])).
+      { eapply ext_trans; [exact X1|]. unfold ext; rewrite L2; reflexivity. }
+      assert (Hnt2 : no_thr s2) by (intros m Hm; apply Hnt1; rewrite <- Q2; exact Hm).
+      assert (R : exists new, ext s s2 new /\ wpost o s (ocs new o) s2 /\ no_thr s2).
+      { eexists; split; [exact X2|]. rewrite ocs_app. cbn [fold_left].
+        split; [exact (conj I2 (conj C2 (conj (eq_trans P2 P1) (wframe_trans _ _ _ W1 W2))))|exact Hnt2]. }
+      destruct f; [destruct (rc && _)| |]; injection HH as <- <-; exact R. }
+    destruct x as [| |a].
+    - destruct (s_respq s1) as [|m q] eqn:EQ.
+      + apply (Hflush w s'). exact H.
+      + destruct (base_start_send tp m (add_permit (set_respq s1 q))) as [e s2] eqn:ES.
+        assert (Hm : resp_body m <> BThrottle) by (apply Hnt1; rewrite EQ; left; reflexivity).
+        destruct (add_permit_shape (set_respq s1 q)) as (A1 & A2 & A3 & A4 & A5 & A6 & A7 & A8 & A9 & A10 & A11 & A12 & A13).
+        cbv zeta in *. sproj.
+        assert (Hq2 : forall mm, In mm (s_respq s2) -> In mm (s_respq s1)).
+        { destruct (base_start_send_shape tp _ _ _ _ ES) as [(_ & _ & ->)|(_ & _ & _ & _ & _ & _ & _ & _ & _ & _ & _ & _ & _ & B12 & _)];
+            intros mm Hmm; [rewrite A11 in Hmm|rewrite B12, A11 in Hmm]; rewrite EQ; right; exact Hmm. }
+        assert (Hnt2 : no_thr s2) by (intros mm Hmm; apply Hnt1; apply Hq2; exact Hmm).
+        destruct (step_send tp lim _ s1 m q e s2 I1 C1 Hm ES)
+          as [(He & L2 & I2 & Hsub & Hieq)|(r & L2 & He & I2 & P2 & C2 & Hi2)]; cbv zeta in *.
+        * assert (W2 : wframe s1 s2).
+          { destruct (base_start_send_shape tp _ _ _ _ ES) as [(_ & _ & ->)|(en & rr & _ & _ & _ & _ & _ & _ & _ & _ & _ & _ & _ & _ & _ & _ & LL)].
+            - unfold wframe. rewrite A1, A3, A6, A7, A9. repeat split; auto.
+            - exfalso. rewrite A12 in LL. rewrite L2 in LL. clear -LL.
+              assert (length (s_log s1) = length (CSend m rr :: s_log s1)) by (rewrite <- LL; reflexivity).
+              cbn in H. lia. }
+          assert (R : exists new, ext s s2 new /\ wpost o s (ocs new o) s2 /\ no_thr s2).
+          { exists n1. split; [unfold ext in *; rewrite L2; exact X1|].
+            split; [exact (conj I2 (conj C1 (conj P1 (wframe_trans _ _ _ W1 W2))))|exact Hnt2]. }
+          subst e. injection H as <- <-. exact R.
+        * assert (W2 : wframe s1 s2).
+          { destruct (base_start_send_shape tp _ _ _ _ ES) as [(_ & _ & Heq)|(en & rr & _ & _ & B1 & B2 & B3 & B4 & B5 & B6 & B7 & B8 & B9 & B10 & _)].
+            - exfalso. rewrite Heq, A12 in L2. clear -L2.
+              assert (length (s_log s1) = length (CSend m r :: s_log s1)) by (rewrite <- L2; reflexivity).
+              cbn in H. lia.
+            - unfold wframe. rewrite B3, B4, B5, B6, B8, A1, A3, A6, A7, A9. repeat split; auto.
+              intros e0 He0. rewrite B1, A4 in He0. apply in_drop_entry in He0. tauto. }
+          assert (R : exists new, ext s s2 new /\ wpost o s (ocs new o) s2 /\ no_thr s2).
+          { exists (n1 ++ [CSend m r]). split; [eapply ext_trans; [exact X1|unfold ext; rewrite L2; reflexivity]|].
+            rewrite ocs_app. cbn [fold_left].
+            split; [exact (conj I2 (conj C2 (conj (eq_trans P2 P1) (wframe_trans _ _ _ W1 W2))))|exact Hnt2]. }
+          destruct e; injection H as <- <-; exact R.
+    - apply (Hflush w s'). exact H.
+    - injection H as <- <-. exists n1. split; [exact X1|]. split; [exact (conj I1 (conj C1 (conj P1 W1)))|exact Hnt1].
+  Qed.
+
+  Lemma BInv_wpost : forall o (s : st) o' s', BInv o s -> wpost o s o' s' -> BInv o' s'.
+  Proof.
+    intros o s o' s' (HI & Hh & Hce) (I & C & P & (W1 & W2 & _)).
+    split; [exact I|split; [|exact C]]. eapply handled_sub; eauto.
+  Qed.
+  Lemma QInv_wpost : forall o (s : st) q o' s', QInv o s q -> wpost o s o' s' -> QInv o' s' q.
+  Proof.
+    intros o s q o' s' (HI & HP & Hce) (I & C & P & (W1 & W2 & W3 & W4 & _)).
+    split; [exact I|split; [|exact C]]. eapply PendQ_frame; eauto.
+  Qed.
+
+  Definition rpost (c : cfg) (r : pres treq) (o : ostate) (s : st) : Prop :=
+    match r with
+    | PReady q => QInv o s q
+    | PEnd | PPending => BInv o s
+    | PErr _ => BInv o s
+                \/ exists q s2, QInv o s2 q /\ s = set_cancels s2 (s_cancels s2 ++ [q_id q])
+    | PFuel => True
+    end.
+
+  (* impl Stream for Requests: poll_next *)
+  Lemma requests_inv : forall c f (s : st) r s' o,
+    cfg_limit c = lim ->
+    BInv o s -> no_thr s -> requests_poll_next tp c f s = (r, s') ->
+    exists new, ext s s' new /\ rpost c r (ocs new o) s' /\ no_thr s'.
+  Proof.
+    intros c f; induction f as [|f IH]; intros s r s' o Hlim HB Hnt H; cbn [requests_poll_next] in H.
+    { injection H as <- <-. exists []. split; [apply ext_refl|split; [exact I|exact Hnt]]. }
+    destruct (pump_read tp c (S f) s) as [rd s1] eqn:ER.
+    assert (Hrd : exists n1, ext s s1 n1 /\ post rd (ocs n1 o) s1).
+    { unfold pump_read in ER. destruct (cfg_limit c) as [l|]; [eapply maxreq_inv; eauto|eapply base_inv; eauto]. }
+    destruct Hrd as (n1 & X1 & Post1).
+    assert (Hq1 : s_respq s1 = s_respq s).
+    { unfold pump_read in ER. destruct (cfg_limit c) as [l|].
+      - (* respq is untouched by reads *)
+        clear -ER. revert s l rd s1 ER. generalize (S f) as g.
+        induction g as [|g IHg]; intros s l rd s1 ER; cbn [maxreq_poll_next] in ER; [injection ER as _ <-; reflexivity|].
+        destruct (l <=? length (s_inflight s)).
+        + destruct (do_ready tp s) as [x sx] eqn:E1. destruct (do_ready_core tp _ _ _ E1) as (_ & _ & Q1 & _).
+          destruct x; try (injection ER as _ <-; exact Q1).
+          destruct (base_poll_next tp (S g) sx) as [y sy] eqn:E2.
+          pose proof (respq_base _ _ _ _ E2) as Q2.
+          destruct y; try (injection ER as _ <-; congruence).
+          destruct (base_start_send tp (mkresp (q_id x) BThrottle) sy) as [e sz] eqn:E3.
+          pose proof (respq_start_send _ _ _ _ E3) as Q3.
+          destruct e; [injection ER as _ <-; congruence|].
+          rewrite (IHg _ _ _ _ ER). congruence.
+        + exact (respq_base _ _ _ _ ER).
+      - exact (respq_base _ _ _ _ ER). }
+    assert (Hnt1 : no_thr s1) by (intros m Hm; apply Hnt; rewrite <- Hq1; exact Hm).
+    destruct rd as [q| |a| |].
+    - (* a request was accepted: pump_write, then yield *)
+      destruct Post1 as ((HI1 & HP1 & Hce1) & Hin1).
+      destruct (pump_write tp false s1) as [wr s2] eqn:EW.
+      destruct (pump_write_inv _ _ _ _ _ HI1 Hce1 Hnt1 EW) as (n2 & X2 & WP & Hnt2).
+      assert (X02 : ext s s2 (n1 ++ n2)) by (eapply ext_trans; eauto).
+      pose proof (QInv_wpost _ _ _ _ _ (conj HI1 (conj HP1 Hce1)) WP) as HQ2.
+      destruct wr as [u| |a| |]; injection H as <- <-; exists (n1 ++ n2); rewrite ocs_app;
+        (split; [first [exact X02|unfold ext in *; sproj; exact X02]|]).
+      + split; [exact HQ2|exact Hnt2].
+      + split; [exact HQ2|exact Hnt2].
+      + split; [right; exists q, s2; split; [exact HQ2|reflexivity]|]. intros m Hm. apply Hnt2. exact Hm.
+      + split; [exact HQ2|exact Hnt2].
+      + split; [exact I|exact Hnt2].
+    - destruct (pump_write tp true s1) as [wr s2] eqn:EW.
+      destruct Post1 as (HI1 & Hh1 & Hce1).
+      destruct (pump_write_inv _ _ _ _ _ HI1 Hce1 Hnt1 EW) as (n2 & X2 & WP & Hnt2).
+      assert (X02 : ext s s2 (n1 ++ n2)) by (eapply ext_trans; eauto).
+      pose proof (BInv_wpost _ _ _ _ (conj HI1 (conj Hh1 Hce1)) WP) as HB2.
+      destruct wr as [u| |a| |]; try (injection H as <- <-; exists (n1 ++ n2); rewrite ocs_app;
+        (split; [exact X02|split; [first [exact HB2|left; exact HB2|exact I]|exact Hnt2]])).
+      rewrite <- ocs_app in HB2.
+      destruct (IH _ _ _ _ Hlim HB2 Hnt2 H) as (n3 & X3 & Post3 & Hnt3).
+      exists ((n1 ++ n2) ++ n3). split; [eapply ext_trans; eauto|]. rewrite ocs_app. split; auto.
+    - injection H as <- <-. exists n1. split; [exact X1|split; [left; exact Post1|exact Hnt1]].
+    - destruct (pump_write tp false s1) as [wr s2] eqn:EW.
+      destruct Post1 as (HI1 & Hh1 & Hce1).
+      destruct (pump_write_inv _ _ _ _ _ HI1 Hce1 Hnt1 EW) as (n2 & X2 & WP & Hnt2).
+      assert (X02 : ext s s2 (n1 ++ n2)) by (eapply ext_trans; eauto).
+      pose proof (BInv_wpost _ _ _ _ (conj HI1 (conj Hh1 Hce1)) WP) as HB2.
+      destruct wr as [u| |a| |]; try (injection H as <- <-; exists (n1 ++ n2); rewrite ocs_app;
+        (split; [exact X02|split; [first [exact HB2|left; exact HB2|exact I]|exact Hnt2]])).
+      rewrite <- ocs_app in HB2.
+      destruct (IH _ _ _ _ Hlim HB2 Hnt2 H) as (n3 & X3 & Post3 & Hnt3).
+      exists ((n1 ++ n2) ++ n3). split; [eapply ext_trans; eauto|]. rewrite ocs_app. split; auto.
+    - injection H as <- <-. exists n1. split; [exact X1|split; [exact I|exact Hnt1]].
   Qed.
 End Loops.
